@@ -16,6 +16,7 @@ from hypothesis import strategies as st
 from voluptuous import Schema, Required
 
 from vlib.core import call_twice, Part, Violation, Discard, call
+from vlib import forms
 
 from mitxgraders import (FormulaGrader, NumericalGrader, MatrixGrader, LinearComparer, MatrixEntryComparer,
                          congruence_comparer, between_comparer, eigenvector_comparer, vector_span_comparer,
@@ -881,7 +882,8 @@ def judge_entries(spec, rec):
     if scripted:
         kw.update(variables=['x'], sample_from={'x': Scripted(values=xs)}, samples=len(xs))
     if spec['route'] == 'option':
-        g = MatrixGrader(answers={'expect': expect, 'grade_decimal': cred}, entry_partial_credit=mode, **kw)
+        g = forms.make(MatrixGrader, dict(kw, answers={'expect': expect, 'grade_decimal': cred}, entry_partial_credit=mode),
+                       [expect, student, str(mode), cred])
     else:
         cmp_obj = MatrixEntryComparer(entry_partial_credit=mode)
         if spec.get('shared'):
@@ -1189,7 +1191,7 @@ def judge_shape(spec, rec):
         # just graded a submission of the student's shape against a target of that same shape - then it meets the same
         # submission with a target of ANOTHER shape (a seeded change remembered validated input shapes per grader)
         extra = {'entry_partial_credit': 'proportional'} if comp == 'entries-option' else {}
-        inner = MatrixGrader(**dict(kw, **extra))
+        inner = forms.make(MatrixGrader, dict(kw, **extra), [tstr, sstr])
         call(inner, sstr, sstr)
         call(inner, sstr, sstr)
         rec.cls('shape/grader-graded-this-shape-before')
@@ -1199,7 +1201,7 @@ def judge_shape(spec, rec):
     elif comp == 'equality':
         g = MatrixGrader(answers=tstr, **kw)
     elif comp == 'entries-option':
-        g = MatrixGrader(answers=tstr, entry_partial_credit='proportional', **kw)
+        g = forms.make(MatrixGrader, dict(kw, answers=tstr, entry_partial_credit='proportional'), [tstr, sstr])
     elif comp == 'entries-comparer':
         g = MatrixGrader(answers={'comparer': MatrixEntryComparer(entry_partial_credit=0.5),
                                   'comparer_params': [tstr]}, **kw)
